@@ -1,0 +1,6 @@
+//go:build !verif
+
+package helpers
+
+// vhook marks an instrumentation point for the "verif" build tag; without the tag it does nothing.
+func vhook(string, ...any) {}
